@@ -13,6 +13,7 @@ import (
 	"net/url"
 	"path"
 	"reflect"
+	"strconv"
 	"strings"
 )
 
@@ -811,5 +812,104 @@ func verifH_C02_schema_keywords() {
 		at = v.Properties["q"].Value.Not.Value.Items
 	}
 	verifAssert(at != nil && at.Value != nil && at.Value.Type.Is("string") && at.Value.MinLength == 3, "C02 keywords: a reference below a schema keyword resolves to the object it designates")
+	verifReach("end")
+}
+
+//verif:harness id=C02 tier=quick,thorough witness=end bounds="references whose JSON pointer goes into an object: 14 fragments (the first / last / only member of allOf, oneOf, anyOf and of a parameter list, properties/p, items, properties/p/items, additionalProperties, a parameter's schema, a response's and a request body's media type schema, a schema below an operation of a path) x in the root document or in an external file: the reference resolves to the schema found there (each target carries its own minLength)"
+func verifH_C02_deep_fragments() {
+	mk := func(n int) string { return `{"type":"string","minLength":` + strconv.Itoa(n) + `}` }
+	body := `"paths":{"/a":{"get":{"parameters":[{"name":"p0","in":"query","schema":` + mk(20) + `},{"name":"p1","in":"query","schema":` + mk(21) + `}],"responses":{"200":{"description":"d","content":{"application/json":{"schema":` + mk(22) + `}}}}}}},` +
+		`"components":{"schemas":{"D":{"allOf":[` + mk(1) + `,` + mk(2) + `],"oneOf":[` + mk(3) + `],"anyOf":[` + mk(4) + `,` + mk(5) + `,` + mk(6) + `],"properties":{"p":{"type":"array","items":` + mk(7) + `}},"items":` + mk(8) + `,"additionalProperties":` + mk(9) + `}},` +
+		`"parameters":{"P":{"name":"p","in":"query","schema":` + mk(10) + `}},` +
+		`"responses":{"R":{"description":"d","content":{"application/json":{"schema":` + mk(11) + `}}}},` +
+		`"requestBodies":{"B":{"content":{"application/json":{"schema":` + mk(12) + `}}}}}`
+	frags := []struct {
+		frag string
+		want uint64
+	}{
+		{"/components/schemas/D/allOf/0", 1}, {"/components/schemas/D/allOf/1", 2}, {"/components/schemas/D/oneOf/0", 3},
+		{"/components/schemas/D/anyOf/1", 5}, {"/components/schemas/D/anyOf/2", 6},
+		{"/components/schemas/D/properties/p/items", 7}, {"/components/schemas/D/items", 8}, {"/components/schemas/D/additionalProperties", 9},
+		{"/components/parameters/P/schema", 10}, {"/components/responses/R/content/application~1json/schema", 11},
+		{"/components/requestBodies/B/content/application~1json/schema", 12},
+		{"/paths/~1a/get/parameters/0/schema", 20}, {"/paths/~1a/get/parameters/1/schema", 21},
+		{"/paths/~1a/get/responses/200/content/application~1json/schema", 22},
+	}
+	f := frags[verifChoose("fragment", len(frags))]
+	external := verifChoose("external", 2) == 1
+	ref := "#" + f.frag
+	if external {
+		ref = "deep.json#" + f.frag
+	}
+	deepText := `{"openapi":"3.0.0","info":{"title":"t","version":"1"},` + body + `}`
+	rootText := deepText
+	if external {
+		rootText = `{"openapi":"3.0.0","info":{"title":"t","version":"1"},"paths":{},"components":{"schemas":{"User":{"$ref":"` + ref + `"}}}}`
+	} else {
+		rootText = `{"openapi":"3.0.0","info":{"title":"t","version":"1"},` + strings.Replace(body, `"components":{"schemas":{`, `"components":{"schemas":{"User":{"$ref":"`+ref+`"},`, 1) + `}`
+	}
+	rootLoc := &url.URL{Path: "/r/doc.json"}
+	loader := NewLoader()
+	loader.IsExternalRefsAllowed = true
+	loader.ReadFromURIFunc = func(_ *Loader, u *url.URL) ([]byte, error) {
+		switch u.Path {
+		case rootLoc.Path:
+			return []byte(rootText), nil
+		case "/r/deep.json":
+			return []byte(deepText), nil
+		}
+		return nil, errors.New("no such file")
+	}
+	doc, err := loader.LoadFromDataWithPath([]byte(rootText), rootLoc)
+	verifAssert(err == nil && doc != nil, "C02 deep fragments: a reference into an existing object loads")
+	if err != nil || doc == nil {
+		return
+	}
+	u := doc.Components.Schemas["User"]
+	verifAssert(u != nil && u.Value != nil && u.Value.Type.Is("string") && u.Value.MinLength == f.want, "C02 deep fragments: the reference resolves to the schema its JSON pointer designates")
+	verifReach("end")
+}
+
+//verif:harness id=C02 tier=quick,thorough witness=end bounds="one Loader used twice: a first document that loads, or fails on a dangling reference, or fails on a reference to the wrong kind of object, then a second, valid document using the same reference text (at a schema, a parameter and a response position); each load through LoadFromData / LoadFromDataWithPath / LoadFromURI: the second load resolves every reference whatever happened before"
+func verifH_C02_loader_reuse() {
+	doc := func(comps string) string {
+		return `{"openapi":"3.0.0","info":{"title":"t","version":"1"},"paths":{"/a":{"get":{"parameters":[{"$ref":"#/components/parameters/P"}],"responses":{"200":{"$ref":"#/components/responses/R"}}}}},"components":{` + comps + `}}`
+	}
+	good := doc(`"schemas":{"Thing":{"type":"string","minLength":3},"User":{"$ref":"#/components/schemas/Thing"}},"parameters":{"P":{"name":"p","in":"query","schema":{"$ref":"#/components/schemas/Thing"}}},"responses":{"R":{"description":"d"}}`)
+	first := []string{
+		good,
+		doc(`"schemas":{"User":{"$ref":"#/components/schemas/Thing"}},"parameters":{"P":{"name":"p","in":"query","schema":{"$ref":"#/components/schemas/Thing"}}},"responses":{"R":{"description":"d"}}`),                          // dangling schema
+		doc(`"schemas":{"Thing":{"type":"string"},"User":{"$ref":"#/components/schemas/Thing"}},"parameters":{"P":{"name":"p","in":"query","schema":{"$ref":"#/components/schemas/Thing"}}}`),                                      // dangling response
+		doc(`"schemas":{"Thing":{"type":"string"},"User":{"$ref":"#/components/parameters/P"}},"parameters":{"P":{"name":"p","in":"query","schema":{"$ref":"#/components/schemas/Thing"}}},"responses":{"R":{"description":"d"}}`), // wrong kind
+	}[verifChoose("first", 4)]
+	loader := NewLoader()
+	loader.IsExternalRefsAllowed = true
+	texts := map[string]string{}
+	loader.ReadFromURIFunc = func(_ *Loader, u *url.URL) ([]byte, error) {
+		if t, ok := texts[u.Path]; ok {
+			return []byte(t), nil
+		}
+		return nil, errors.New("no such file")
+	}
+	load := func(which int, text, path string) (*T, error) {
+		texts[path] = text
+		switch which {
+		case 0:
+			return loader.LoadFromData([]byte(text))
+		case 1:
+			return loader.LoadFromDataWithPath([]byte(text), &url.URL{Path: path})
+		}
+		return loader.LoadFromURI(&url.URL{Path: path})
+	}
+	_, _ = load(verifChoose("entry1", 3), first, "/r/one.json")
+	d2, err := load(verifChoose("entry2", 3), good, "/s/two.json")
+	verifAssert(err == nil && d2 != nil, "C02 loader reuse: a valid document loads on a loader that was used before")
+	if err != nil || d2 == nil {
+		return
+	}
+	u := d2.Components.Schemas["User"]
+	p := d2.Paths.Value("/a").Get.Parameters[0]
+	r := d2.Paths.Value("/a").Get.Responses.Value("200")
+	verifAssert(u != nil && u.Value != nil && u.Value.MinLength == 3 && p != nil && p.Value != nil && p.Value.Schema != nil && p.Value.Schema.Value != nil && p.Value.Schema.Value.MinLength == 3 && r != nil && r.Value != nil, "C02 loader reuse: every reference of the second document is resolved, whatever the first load left behind")
 	verifReach("end")
 }
